@@ -38,8 +38,8 @@ META = {
 }
 
 OPS = ['INSERT', 'REPLACE', 'MOVE', 'DELETE', 'SWAP', 'FROB', 'insert', '', None]
-TSHAPES = ['none', 'empty', 'story', 'story+item', 'item']
-SSHAPES = ['none', 'empty', 'storyID', 'itemID', 'story', 'item', 'both']
+TSHAPES = ['none', 'empty', 'story', 'story+item', 'item', 'story+item+item']     # whether, not how many
+SSHAPES = ['none', 'empty', 'storyID', 'itemID', 'story', 'item', 'both', 'itemID+itemID']
 
 
 def ea_doc(op, tsh, ssh, pretty=False, extra_first=False):
@@ -51,13 +51,17 @@ def ea_doc(op, tsh, ssh, pretty=False, extra_first=False):
             t.append(E('storyID', 'A'))
         if 'item' in tsh:
             t.append(E('itemID', None if extra_first else 'i'))
+        if tsh.endswith('item+item'):
+            t.append(E('itemID', 'i2'))
         ea.append(t)
     if ssh != 'none':
         src = E('element_source')
         if ssh in ('storyID', 'both'):
             src.append(E('storyID', 'B'))
-        if ssh in ('itemID', 'both'):
+        if ssh in ('itemID', 'both', 'itemID+itemID'):
             src.append(E('itemID', 'j'))
+        if ssh == 'itemID+itemID':
+            src.append(E('itemID', 'j2'))
         if ssh == 'story':
             src.append(gen.simple_story('N', 1))
         if ssh == 'item':
